@@ -167,7 +167,7 @@ def entries():
                                                                            scale=b1, single_channel=False, conservative=True), vector=True)
 
     # ------------------------------------------------------------------ Navier-Stokes family
-    nuv, drag = 0.03, -0.1
+    nuv, drag = 0.03, -0.07  # neither is a class default
     ns_sym = lambda k, D, N, L, ch: (complex(-nuv * lap(k, L) + drag), nuv * lap(k, L) + abs(drag))
     add("NavierStokesVorticity", (2,), one,
         lambda ex, jnp, D, N, L, dt, order: ex.stepper.NavierStokesVorticity(D, L, N, dt, diffusivity=nuv, vorticity_convection_scale=0.9, drag=drag, order=order),
@@ -215,21 +215,25 @@ def entries():
         lambda k, D, N, L, ch: (complex(0.02 * (-lap(k, L)) * (-0.8 + 2e-3 * lap(k, L))), 0.02 * lap(k, L) * (0.8 + 2e-3 * lap(k, L))),
         ch_nl, frac=0.5, degree=3)
 
+    # every coefficient differs from the class default, so a slip that is invisible at the defaults (k vs k^2 at k = 1, ...) is not
+    GS_FEED, GS_KILL = 0.03, 0.055
+    SH_R, SH_K, SH_POLY = 0.6, 0.8, (0.0, 0.0, 0.9, -1.1)
+
     def gs_nl(ex, jnp, D, N, L, dt):
         from exponax.stepper.reaction._gray_scott import GrayScottNonlinearFun
 
-        return GrayScottNonlinearFun(D, N, dealiasing_fraction=0.5, feed_rate=0.04, kill_rate=0.06)
+        return GrayScottNonlinearFun(D, N, dealiasing_fraction=0.5, feed_rate=GS_FEED, kill_rate=GS_KILL)
 
     add("GrayScott", (1, 2, 3), lambda D: 2,
-        lambda ex, jnp, D, N, L, dt, order: ex.stepper.reaction.GrayScott(D, L, N, dt, diffusivity_1=2e-3, diffusivity_2=1e-3, feed_rate=0.04,
-                                                                            kill_rate=0.06, order=order),
+        lambda ex, jnp, D, N, L, dt, order: ex.stepper.reaction.GrayScott(D, L, N, dt, diffusivity_1=2e-3, diffusivity_2=1e-3, feed_rate=GS_FEED,
+                                                                            kill_rate=GS_KILL, order=order),
         lambda k, D, N, L, ch: (complex(-(2e-3, 1e-3)[ch] * lap(k, L)), (2e-3, 1e-3)[ch] * lap(k, L)),
         gs_nl, frac=0.5, degree=3, forced=True, notes="zero is not a fixed point (feed term)")
     add("SwiftHohenberg", (1, 2, 3), one,
-        lambda ex, jnp, D, N, L, dt, order: ex.stepper.reaction.SwiftHohenberg(D, L, N, dt, reactivity=0.7, critical_number=1.0,
-                                                                                 polynomial_coefficients=(0.0, 0.0, 1.0, -1.0), order=order),
-        lambda k, D, N, L, ch: (complex(0.7 - (1.0 - lap(k, L)) ** 2), 0.7 + (1.0 + lap(k, L)) ** 2),
-        lambda ex, jnp, D, N, L, dt: ex.nonlin_fun.PolynomialNonlinearFun(D, N, dealiasing_fraction=0.5, coefficients=(0.0, 0.0, 1.0, -1.0)),
+        lambda ex, jnp, D, N, L, dt, order: ex.stepper.reaction.SwiftHohenberg(D, L, N, dt, reactivity=SH_R, critical_number=SH_K,
+                                                                                 polynomial_coefficients=SH_POLY, order=order),
+        lambda k, D, N, L, ch: (complex(SH_R - (SH_K - lap(k, L)) ** 2), SH_R + (SH_K + lap(k, L)) ** 2),
+        lambda ex, jnp, D, N, L, dt: ex.nonlin_fun.PolynomialNonlinearFun(D, N, dealiasing_fraction=0.5, coefficients=SH_POLY),
         frac=0.5, degree=3)
 
     # ------------------------------------------------------------------ generic family (physical / normalized / difficulty)
